@@ -475,6 +475,8 @@ def gen_history(rng, nops=30, comp=None, out=None, nbps=None, rich=False, rot=Tr
             if rng.random() < stats_p:
                 op["stats"] = gen_stats(rng)
         h["ops"].append(op)
+    if rng.random() < 0.2:
+        h["unwind"] = True      # the exporter is destroyed by stack unwinding (an unrelated exception is in flight)
     return h
 
 
